@@ -152,6 +152,9 @@ pub fn exec_hist<P: TP>(case: &Case, spec: &HistSpec, known: &BTreeSet<String>, 
                         };
                     }
                     if which == 0 {
+                        if post == Post::C11 {
+                            crate::views::check_set_views::<P>(&w.a.model, &mut env, &qs)?;
+                        }
                         go!(w.a);
                     } else if !w.b.model.m.is_empty() {
                         go!(w.b);
